@@ -529,14 +529,16 @@ def check(ctx):
     if fn is None:
         r4.bad(V(r4.id, "<anchor>", "missing:extract_type_names_recursive", "anchor not found"))
     else:
-        naive = [e for e in walk_block(fn.body) if e.get("k") == "mcall" and e["method"] in ("find", "split", "split_once", "splitn", "rfind") and e["args"] and e["args"][0].get("k") == "lit" and e["args"][0]["lit"]["v"] == ","]
-        good = [e for e in walk_block(fn.body) if e.get("k") == "call" and expr_text(e["func"]).endswith("split_top_level_commas")]
+        from srclib import walk_block_deep
+        body_deep = list(walk_block_deep(S, fn))        # the function and the private helpers a clean-up may have moved parts of it into
+        naive = [e for e in body_deep if e.get("k") == "mcall" and e["method"] in ("find", "split", "split_once", "splitn", "rfind") and e["args"] and e["args"][0].get("k") == "lit" and e["args"][0]["lit"]["v"] == ","]
+        good = [e for e in body_deep if e.get("k") == "call" and expr_text(e["func"]).endswith("split_top_level_commas")]
         for e in naive:
             r4.bad(V(r4.id, "CommandAnalyzer::extract_type_names_recursive", "naive-comma:%s on %s" % (e["method"], expr_text(e["recv"])), "%s(',') on type text" % e["method"], fn.file, e["ln"]))
         for e in good:
             r4.ok("split_top_level_commas(%s)" % expr_text(e["args"][0]))
         check_harvester_normalisation(S, r4)
-        prefixes = sorted(set(lit_str(e["args"][0]) for e in walk_block(fn.body) if e.get("k") == "mcall" and e["method"] == "starts_with" and e["args"] and lit_str(e["args"][0])))
+        prefixes = sorted(set(lit_str(e["args"][0]) for e in body_deep if e.get("k") == "mcall" and e["method"] == "starts_with" and e["args"] and lit_str(e["args"][0])))
         need = {"Result<", "Option<", "Vec<", "HashMap<", "BTreeMap<", "HashSet<", "BTreeSet<"}
         if need <= set(prefixes):
             r4.ok("harvester unwraps %s" % sorted(need))
